@@ -115,9 +115,9 @@ def do_run(names, tier):
                         break
                 except Exception:
                     pass
-        # clean the per-tree Coq copy
-        for b in (ROOT / "build").glob("coq-*"):
-            shutil.rmtree(b, ignore_errors=True)
+        # clean the per-tree Coq copy of this worktree only (other runs may own other copies)
+        import hashlib
+        shutil.rmtree(ROOT / "build" / ("coq-" + hashlib.sha1(os.path.realpath(str(wt)).encode()).hexdigest()[:10]), ignore_errors=True)
         caught = rc == 1 and bool(viol)
         kind = "not caught"
         if caught:
